@@ -99,7 +99,22 @@ def write_input_branching(path):
         fh.write("\n".join(rows) + "\n")
 
 
-def launch_shared(label, workdir, in_file, seed, shared, iters):
+def write_input_six(path):
+    """Six mutations in three samples whose CCFs do not nest (sibling clones meet in many pairings): few data points, so
+    the memo tables are not flushed between the chains of a worker."""
+    import numpy as np
+    rs = np.random.default_rng(3)
+    clones = [(1.0, 1.0, 1.0), (0.7, 0.2, 0.1), (0.2, 0.6, 0.1), (0.05, 0.1, 0.7), (0.4, 0.1, 0.05), (0.1, 0.3, 0.02)]
+    rows = ["mutation_id\tsample_id\tref_counts\talt_counts\tmajor_cn\tminor_cn\tnormal_cn"]
+    for k, ccfs in enumerate(clones):
+        for s_, ccf in zip(("S1", "S2", "S3"), ccfs):
+            alt = rs.binomial(300, ccf / 2)
+            rows.append("mut_%02d\t%s\t%d\t%d\t1\t1\t2" % (k, s_, 300 - alt, alt))
+    with open(path, "w") as fh:
+        fh.write("\n".join(rows) + "\n")
+
+
+def launch_shared(label, workdir, in_file, seed, shared, iters, chains=3, particles=20, extra=("--precision", "400")):
     """3 chains; with `shared` all pool workers but the first are slow to come up, so that the first worker process
     executes the chains one after the other (a schedule the executor permits)."""
     out = os.path.join(workdir, label + ".pkl.gz")
@@ -112,9 +127,9 @@ def launch_shared(label, workdir, in_file, seed, shared, iters):
     if shared:
         e["PCV_WORKER_START_DELAY"] = "%s:%d" % (marks, shared)
     cmd = [sys.executable, "-c", "from phyclone.cli import main; main()", "run", "-i", in_file, "-o", out, "--seed", str(seed), "-n", str(iters), "-b", "5",
-           "--num-chains", "3", "--num-particles", "20", "--precision", "400", "--print-freq", "100000"]
+           "--num-chains", str(chains), "--num-particles", str(particles), "--print-freq", "100000"] + list(extra)
     p = subprocess.Popen(cmd, cwd=workdir, env=e, stdout=subprocess.PIPE, stderr=subprocess.STDOUT)
-    return {"label": label, "proc": p, "out": out, "hashseed": 0, "one_core": False, "delays": ("workers 2,3 start %ds late" % shared) if shared else None, "marks": marks}
+    return {"label": label, "proc": p, "out": out, "hashseed": 0, "one_core": False, "delays": ("the other workers start %ds late" % shared) if shared else None, "marks": marks}
 
 
 def launch_timing(label, workdir, in_file, seed, slow):
@@ -279,7 +294,12 @@ def run(corrupt=None):
     loader_hashseeds(ck, workdir, thorough)
     grp_t = [launch_timing("timing_direct_slow", workdir, in_file, seed + 3, "phyclone.tree.utils:_np_conv_dims:0.004:12"),
              launch_timing("timing_fft_slow", workdir, in_file, seed + 3, "phyclone.tree.utils:fft_convolve_two_children:0.004:12")]
+    in_six = os.path.join(workdir, "in_six.tsv")
+    write_input_six(in_six)
+    grp_six = [[launch_shared("six_s%d_own_process_each" % sd, workdir, in_six, sd, 0, 40, chains=2, particles=10, extra=()),
+                launch_shared("six_s%d_one_worker_runs_all" % sd, workdir, in_six, sd, 45, 40, chains=2, particles=10, extra=())] for sd in ((7, 8, 9) if thorough else (7, 8))]
     assign_group = [collect(r) for r in grp]
+    six_groups = [[collect(r) for r in g] for g in grp_six]
     timing_group = [collect(r) for r in grp_t]
     assign_single = [collect(r) for r in grp1]
     shared_group = [collect(r) for r in grp_sh]
@@ -294,7 +314,7 @@ def run(corrupt=None):
             grp = [launch("g%d_%s" % (gi, l), workdir, in_file, seed + 1 + gi, 3, extra=("--proposal", prop, "--outlier-prob", op), **kw)
                    for l, kw in (("h0", dict(hashseed=0)), ("h7_onecore", dict(hashseed=7, one_core=True)), ("h3_delayed", dict(hashseed=3, delays="0:7,1:3,2:0")))]
             extra_groups.append([collect(r) for r in grp])
-    for grp, what in [(runs, "2 chains")] + [(singles, "1 chain")] + [(assign_group, "2 chains, --assign-loss-prob"), (assign_single, "1 chain, --assign-loss-prob"), (shared_group, "3 chains, one worker process runs them all"), (timing_group, "1 chain, 512-point grid, timing of the convolution routines perturbed")] + [(g, "3 chains") for g in extra_groups]:
+    for grp, what in [(runs, "2 chains")] + [(singles, "1 chain")] + [(assign_group, "2 chains, --assign-loss-prob"), (assign_single, "1 chain, --assign-loss-prob"), (shared_group, "3 chains, one worker process runs them all")] + [(g, "2 chains on 6 mutations, one worker process runs both (#%d)" % gi) for gi, g in enumerate(six_groups)] + [(timing_group, "1 chain, 512-point grid, timing of the convolution routines perturbed")] + [(g, "3 chains") for g in extra_groups]:
         for r in grp:
             if r["rc"] != 0 or "chains" not in r:
                 raise RuntimeError("phyclone run failed in the harness (%s): %s" % (r["label"], r["stdout_tail"][-800:]))
@@ -311,7 +331,7 @@ def run(corrupt=None):
             ck.nontrivial("%s|%s" % (what, pert))
         orders = {tuple(r["order"]) for r in grp}
         ck.extra.setdefault("completion_orders", {})[what] = sorted(list(o) for o in orders)
-        if not what.startswith("1 chain") and not what.startswith("3 chains, one worker") and len(orders) < 2:
+        if not what.startswith("1 chain") and "one worker" not in what and len(orders) < 2:
             ck.note("the perturbations did not change the completion order for %s (orders %s): scheduling coverage reduced in this run" % (what, sorted(orders)))
         ck.traces_validated += len(grp)
     ck.sample({"run": runs[0]["label"], "completion_order": runs[0]["order"], "chain0_first_entries": runs[0]["chains"][0][:3]})
